@@ -17,10 +17,10 @@ RULE = ('case = one operation of the real Term/Type API on generated well-typed 
 ASSUMPTIONS = ['reference operations in vf/shadow.py (textbook de Bruijn) are the ground truth for syntax',
                'denotation checked in finite models with type-variable domains <= 2 (3 when small)',
                'id recycling is probabilistic: evidence counter churn_comparisons says how many were tried']
-REQUIRED = {'quick': {'subst_with_type_instantiation': 1500, 'subobject_hash_checks': 5000, 'eq_checks': 5000, 'hash_checks': 2000, 'op:subst': 500, 'op:subst_type': 500, 'op:subst_bound': 500,
+REQUIRED = {'quick': {'op:dest_abs': 3000, 'subst_with_type_instantiation': 1500, 'subobject_hash_checks': 5000, 'eq_checks': 5000, 'hash_checks': 2000, 'op:subst': 500, 'op:subst_type': 500, 'op:subst_bound': 500,
                       'op:beta_norm': 500, 'op:abstract_over': 500, 'op:incr_boundvars': 300, 'sem_checks': 300,
                       'churn_comparisons': 100000, 'order_triples': 1000, 'type_ops': 1000, 'shared_open_object_two_depths': 120, 'shared_object_abstracted_at_two_depths': 300},
-            'thorough': {'subst_with_type_instantiation': 30000, 'subobject_hash_checks': 100000, 'eq_checks': 100000, 'hash_checks': 40000, 'op:subst': 10000, 'op:subst_type': 10000,
+            'thorough': {'op:dest_abs': 60000, 'subst_with_type_instantiation': 30000, 'subobject_hash_checks': 100000, 'eq_checks': 100000, 'hash_checks': 40000, 'op:subst': 10000, 'op:subst_type': 10000,
                          'op:subst_bound': 10000, 'op:beta_norm': 10000, 'op:abstract_over': 10000,
                          'op:incr_boundvars': 6000, 'sem_checks': 6000, 'churn_comparisons': 3000000,
                          'order_triples': 20000, 'type_ops': 20000, 'shared_open_object_two_depths': 3000, 'shared_object_abstracted_at_two_depths': 3000}}
@@ -311,6 +311,33 @@ def one_round(ctx, rng):
         ctx.count('op_rejected:subst')
     except Exception as e:
         ctx.count('op_raised:subst:' + type(e).__name__)
+    # ---- B2c. dest_abs: opening an abstraction with the recorded name, with a name chosen by the caller, and with
+    #      a name that already occurs free in the body - the variable handed back must not occur in the body, and
+    #      abstracting it again must give back the abstraction
+    A0 = g.rand_type()
+    body0 = g.gen(T, rng.choice([1, 2, 3]), (A0,))
+    free0 = [a for a in S.atoms(body0) if a[0] == 'var']
+    rec_name = rng.choice([a[1] for a in free0] + ['x', 'y']) if rng.random() < 0.5 else rng.choice(['x', 'y', 'u'])
+    lam0 = ('abs', rec_name, A0, body0)
+    for ask in (None, rng.choice([a[1] for a in free0]) if free0 and rng.random() < 0.7 else rng.choice(['w', 'x', 'v'])):
+        try:
+            lt = S.to_repo_term(lam0)
+            v_, b_ = lt.dest_abs() if ask is None else lt.dest_abs(ask)
+            vs, bs = S.tm_shadow(v_), S.tm_shadow(b_)
+        except Exception as e:
+            ctx.count('op_raised:dest_abs:' + type(e).__name__)
+            continue
+        ctx.count('op:dest_abs')
+        witd = {'op': 'dest_abs', 'abs': S.jsonable(lam0), 'asked_name': ask}
+        if vs[0] != 'var' or vs[2] != A0:
+            ctx.violation('dest_abs:returned-variable-has-another-type', 'dest_abs(%r) of %s returned %s' % (ask, S.tm_str(lam0, True), S.tm_str(vs, True)), witd)
+        elif any(a[0] == 'var' and a[1] == vs[1] for a in free0):
+            ctx.violation('dest_abs:returned-variable-occurs-free-in-the-body',
+                          'dest_abs(%r) of %s returned the variable %s, which is free in the body: opening captures it' % (
+                              ask, S.tm_str(lam0, True), vs[1]), witd)
+        elif not S.aeq(('abs', 'z', A0, S.abstract(bs, vs)), lam0):
+            ctx.violation('dest_abs:reabstracting-the-opened-body-gives-another-term',
+                          'dest_abs(%r) of %s returned (%s, %s)' % (ask, S.tm_str(lam0, True), S.tm_str(vs), S.tm_str(bs)), witd)
     # ---- B3. subst_bound / beta_conv with possibly open argument, under a closing prefix
     A = g.rand_type()
     depth_prefix = rng.choice([0, 0, 1, 2])
